@@ -5,6 +5,7 @@
    not proved (level: translation validation).  Also: the naming step `_ir._add_name`.
    Only statements here; proofs live in Proofs/RtlilP.v. *)
 From Coq Require Import ZArith List Bool String.
+From V.Model Require Bits.
 From V.Model Require Import Rtlil.
 From V.Proofs Require Import RtlilP.
 Import ListNotations.
@@ -37,7 +38,7 @@ Definition ex_top (dup : bool) : module :=
     [] [].
 Definition ex_doc (dup : bool) : doc := Doc [ex_top dup; ex_sub].
 Definition ex_foreign : list fspec :=
-  [FS "\top" "\u" "\foo" [Par "\S" 1 (PBits [1; 0; 1]); Par "\X" 0 (PInt 5)] [("\keep", PInt 1)]
+  [FS "\top" "\u" "\foo" [("\S", XConst (-3) 3 true); ("\X", XInt 5)] [("\keep", XInt 1)]
       [FP "\i" DIn 3 (Some [CSlice "\a" 0 0; CSlice "\a" 1 1; CConst [1]]); FP "\q" DOut 1 (Some [CWire "\r"]);
        FP "\p" DInout 2 None]].
 
@@ -63,9 +64,39 @@ Print Assumptions C07_wf_module_decides.
 Theorem C07_rejects_double_driver : ~ WellFormed ex_foreign (ex_doc true).
 Proof. intro H. apply wf_doc_complete in H. vm_compute in H. discriminate. Qed.
 Print Assumptions C07_rejects_double_driver.
-Theorem C07_rejects_wrong_instance : ~ WellFormed [FS "\top" "\u" "\foo" [Par "\X" 0 (PInt 6)] [] []] (ex_doc false).
+Theorem C07_rejects_wrong_instance : ~ WellFormed [FS "\top" "\u" "\foo" [("\S", XConst (-3) 3 true); ("\X", XInt 6)] [("\keep", XInt 1)] []] (ex_doc false).
 Proof. intro H. apply wf_doc_complete in H. vm_compute in H. discriminate. Qed.
 Print Assumptions C07_rejects_wrong_instance.
+
+(* --- parameter / attribute values of foreign instances: back/rtlil.py _const() --- *)
+(* for ALL integers v (any size and sign): the constant written for a plain Python int — decimal inside
+   [0, 2^31-1), otherwise max(32, bits_for v) binary digits marked `signed` iff v < 0 — read back as a
+   two's-complement number of that width (when signed) is v *)
+Theorem C07_const_int_roundtrip : forall v : Z, decode_param (fst (emit_int v)) (snd (emit_int v)) = Some v.
+Proof. exact emit_int_decodes. Qed.
+Print Assumptions C07_const_int_roundtrip.
+Example C07_const_int_roundtrip_ex :
+  emit_int (-2147483649) = (1, PBits (repeat 1 31 ++ [0; 1])) /\ emit_int (2 ^ 31 - 2) = (0, PInt 2147483646) /\
+  emit_int (2 ^ 31 - 1) = (0, PBits (repeat 1 31 ++ [0])) /\ emit_int (-1) = (1, PBits (repeat 1 32)) /\
+  emit_int (- 2 ^ 40 + 5) = (1, PBits ([1; 0; 1] ++ repeat 0 37 ++ [1])) /\
+  forallb (fun v => optz_eqb (decode_param (fst (emit_int v)) (snd (emit_int v))) v)
+          [0; -1; 1; 2^31-2; 2^31-1; 2^31; 2^32; -2^31; -2^31-1; -2^32; -2^32+1; -2^40+5; 2^64; -2^64; -2^64-1] = true.
+Proof. vm_compute. repeat split; reflexivity. Qed.
+
+(* hence two different integers are never written alike *)
+Theorem C07_const_int_injective : forall a b : Z, emit_int a = emit_int b -> a = b.
+Proof. exact emit_int_inj. Qed.
+Print Assumptions C07_const_int_injective.
+
+(* Const(v, shape) of every well-formed shape: exactly `width` digits, denoting the constant's value *)
+Theorem C07_const_value_roundtrip : forall v w sg, Bits.wf_shape (Bits.Sh w sg) = true ->
+  decode_param (fst (emit_xval (XConst v w sg))) (snd (emit_xval (XConst v w sg))) = Some (Bits.norm (Bits.Sh w sg) v) /\
+  (forall bits, snd (emit_xval (XConst v w sg)) = PBits bits -> Z.of_nat (List.length bits) = w).
+Proof. exact emit_const_decodes. Qed.
+Print Assumptions C07_const_value_roundtrip.
+Example C07_const_value_roundtrip_ex :
+  emit_xval (XConst (-2) 3 true) = (1, PBits [0; 1; 1]) /\ emit_xval (XConst 0 0 false) = (0, PBits []).
+Proof. vm_compute. split; reflexivity. Qed.
 
 (* --- the clauses in plain vocabulary (consequences of WellFormed) --- *)
 (* with unique names, the checker's lookup is "the wire of that name" *)
